@@ -51,8 +51,16 @@ def to_smt2(obl, with_axioms=True, small=False, inst=False):
     return text
 
 
+_DECODE_BUDGET = [0]
+
+
 def _decode(model, t, depth=0):
-    """python structure of a model value (best effort, finite universes)"""
+    """python structure of a model value (best effort, finite universes, bounded size)"""
+    if depth == 0:
+        _DECODE_BUDGET[0] = 1500
+    _DECODE_BUDGET[0] -= 1
+    if _DECODE_BUDGET[0] <= 0 or depth > 5:
+        return '<...>'
     try:
         v = model.eval(t, model_completion=True)
         srt = v.sort()
@@ -77,7 +85,7 @@ def _decode(model, t, depth=0):
             # lists: cut the array at n
             names = list(out.keys())
             if len(names) == 2 and names[0].endswith('_n') and names[1].endswith('_arr') and isinstance(out[names[0]], int):
-                n = max(0, min(out[names[0]], 12))
+                n = max(0, min(out[names[0]], 6))
                 arr = srt.accessor(0, 1)(v)
                 return {'list': [_decode(model, arr[i], depth + 1) for i in range(n)], 'n': out[names[0]]}
             if len(names) == 2 and names[0].endswith('_dom') and names[1].endswith('_val'):
@@ -85,7 +93,7 @@ def _decode(model, t, depth=0):
                 val = srt.accessor(0, 1)(v)
                 ks = dom.sort().domain()
                 uni = _universe(model, ks)
-                return {'dict': {str(k): _decode(model, val[k], depth + 1) for k in uni
+                return {'dict': {str(k): _decode(model, val[k], depth + 1) for k in uni[:6]
                                  if z3.is_true(model.eval(dom[k], model_completion=True))}}
             return out
         if srt.kind() == z3.Z3_ARRAY_SORT:
@@ -93,7 +101,7 @@ def _decode(model, t, depth=0):
             if ks.kind() == z3.Z3_INT_SORT:
                 return {'int_array_prefix': [_decode(model, v[i], depth + 1) for i in range(6)]}
             uni = _universe(model, ks)
-            return {'array': {str(k): _decode(model, v[k], depth + 1) for k in uni}}
+            return {'array': {str(k): _decode(model, v[k], depth + 1) for k in uni[:6]}}
         return str(v)
     except Exception as ex:   # noqa
         return f"<undecodable: {ex}>"
@@ -107,7 +115,7 @@ def _universe(model, srt):
         return []
 
 
-def _z3_check(text, timeout_ms, want_model, seed=0):
+def _z3_inproc(text, timeout_ms, want_model, seed=0):
     s = z3.Solver()
     s.set('timeout', timeout_ms)
     if seed:
@@ -127,6 +135,38 @@ def _z3_check(text, timeout_ms, want_model, seed=0):
     if r == z3.unknown:
         out['reason'] = s.reason_unknown()
     return out
+
+
+Z3_BIN = 'z3-new'
+
+
+def _z3_check(text, timeout_ms, want_model, seed=0):
+    """z3 as a separate process with a hard wall-clock limit (the in-process timeout is not always honoured inside
+    preprocessing); a `sat` answer is re-derived in-process only to decode the model"""
+    import subprocess
+    t0 = time.time()
+    secs = max(1, int(round(timeout_ms / 1000.0)))
+    try:
+        args = [Z3_BIN, '-smt2', '-in', f'-T:{secs}'] + ([f'smt.random_seed={seed}', f'sat.random_seed={seed}'] if seed else [])
+        p = subprocess.run(args, input=text + '\n(check-sat)\n' if '(check-sat)' not in text else text, capture_output=True, text=True,
+                           timeout=secs + 5)
+        lines = (p.stdout or '').strip().splitlines()
+        st = lines[0].strip() if lines else 'unknown'
+        if st not in ('sat', 'unsat'):
+            return {'status': 'unknown', 'time': time.time() - t0, 'solver': 'z3-5.1.0', 'reason': (st or 'timeout')[:80]}
+        out = {'status': st, 'time': time.time() - t0, 'solver': 'z3-5.1.0'}
+        if st == 'sat' and want_model:
+            try:
+                r2 = _z3_inproc(text, min(timeout_ms, 10000), True, seed)
+                if r2['status'] == 'sat':
+                    out['model'] = r2.get('model')
+            except Exception:   # noqa
+                pass
+        return out
+    except subprocess.TimeoutExpired:
+        return {'status': 'unknown', 'time': time.time() - t0, 'solver': 'z3-5.1.0', 'reason': 'wall-clock timeout'}
+    except Exception as ex:   # noqa
+        return {'status': 'unknown', 'time': time.time() - t0, 'solver': 'z3-5.1.0', 'reason': f'z3 error: {ex}'[:200]}
 
 
 def _has_quant(t):
